@@ -167,9 +167,72 @@ def overrides(case):
     return {'obs': obs, 'err': err}
 
 
+def repeated(spec):
+    """the same feedback class created several times in one grading: every object is rendered from ITS OWN fields
+    (keywords, constant_fields of the class, location); nothing leaks from one call to the next"""
+    MAIN_REPORT.full_clear()
+    contextualize_report('a = 1\nb = 2\nc = 3\nd = 4\ne = 5\n')
+    const = {'c': 'K'} if spec['constant'] else None
+
+    class rep_fb(Feedback):
+        message_template = 'T:{x}:{c}' if spec['constant'] else 'T:{x}'
+        constant_fields = const
+
+        def condition(self, *a, **k):
+            return True
+    problems = []
+    objs = []
+    for i, call in enumerate(spec['calls']):
+        kw = {}
+        if call.get('x') is not None:
+            kw['x'] = call['x']
+        if call.get('line') is not None:
+            kw['location'] = call['line']
+        if call.get('fields'):
+            kw['fields'] = {'x': call['x']} if call.get('x') is not None else {}
+            kw.pop('x', None)
+        before = (len(MAIN_REPORT.feedback), len(MAIN_REPORT.ignored_feedback))
+        try:
+            obj = rep_fb(**kw)
+            raised = None
+        except Exception as e:
+            obj, raised = None, type(e).__name__
+        added = (len(MAIN_REPORT.feedback) - before[0], len(MAIN_REPORT.ignored_feedback) - before[1])
+        want_x = call.get('x')
+        if want_x is None:
+            if raised is None:
+                problems.append('call %d omits the field x the template needs, yet no exception reached the caller (message %r)' % (i, getattr(obj, 'message', None)))
+            if added != (0, 1):
+                problems.append('call %d (template cannot be rendered): added %s to (triggered, untriggered), expected (0, 1)' % (i, added))
+        else:
+            want = 'T:%s:K' % want_x if spec['constant'] else 'T:%s' % want_x
+            if raised is not None:
+                problems.append('call %d raised %s' % (i, raised))
+            elif obj.message != want:
+                problems.append('call %d: message %r, expected %r from its own fields' % (i, obj.message, want))
+            elif added != (1, 0):
+                problems.append('call %d: added %s to (triggered, untriggered), expected (1, 0)' % (i, added))
+            if obj is not None and call.get('line') is not None:
+                loc = obj.location.line if obj.location is not None else None
+                if loc != call['line']:
+                    problems.append('call %d: location line %r, the call said %r' % (i, loc, call['line']))
+                fl = obj.fields.get('location')
+                fl = getattr(fl, 'line', fl)
+                if fl is not None and fl != call['line']:
+                    problems.append("call %d: fields['location'] is line %r, the call said %r" % (i, fl, call['line']))
+        objs.append((obj, call))
+    for i, (obj, call) in enumerate(objs):
+        if obj is not None and call.get('x') is not None and obj.fields.get('x') != call['x']:
+            problems.append('after the later calls, the fields of object %d changed: x is %r, was %r' % (i, obj.fields.get('x'), call['x']))
+    if spec['constant'] and rep_fb.constant_fields != {'c': 'K'}:
+        problems.append('the class attribute constant_fields was modified: %r' % (rep_fb.constant_fields,))
+    return problems
+
+
 def main():
     data = json.load(sys.stdin)
     out = {'available': list(Formatter.available),
+           'repeated': [repeated(s) for s in data.get('repeated', [])],
            'creation': [creation(s) for s in data['creation']],
            'formatting': formatting(data['formatting']),
            'overrides': [overrides(c) for c in data['overrides']]}
